@@ -439,6 +439,25 @@ func runC08(c *Ctx) {
 				ok := FuncKey(s.Fn) == "pkg/blockchain.(*DataAccess).getTransaction" && len(CallsIn(s.Fn, "blockchain.NewTransaction")) == 1
 				c.Require("C08.I1 transactions-decoded-strictly", FuncKey(s.Fn)+" ⇒ Transaction.Decode", p.InstrPos(s.Call), "lenient transaction decode only on bytes that already passed NewTransaction", ok, "")
 			}
+			// … nor through a whole-block decoder: the generated Block codec reads its nested
+			// transactions with ReadDecodables, which decodes them leniently even in strict mode, so a
+			// block built that way carries transactions whose ID is not the hash of the accepted bytes.
+			// NewBlock goes through RawBlock and NewTransaction; nothing else decodes a Block.
+			nb := 0
+			for _, m := range []string{"Decode", "DecodeStrict", "DecodeFromReader", "DecodeStrictFromReader"} {
+				for _, s := range p.CallersOf("(*blockchain.Block)." + m) {
+					if !IsProd(s.Fn) || strings.HasPrefix(FuncKey(s.Fn), "pkg/blockchain.(*Block).") {
+						continue // the generated codec's own entry points forward to each other
+					}
+					nb++
+					c.Require("C08.I1 transactions-decoded-strictly", FuncKey(s.Fn)+" ⇒ Block."+m, p.InstrPos(s.Call), "no production code decodes a whole Block with the generated codec (its nested transactions would be read leniently); blocks from bytes go through NewBlock → NewTransaction", false, "")
+				}
+			}
+			nbk := c.Anchor("pkg/blockchain.NewBlock")
+			if nbk != nil {
+				c.Require("C08.I1 transactions-decoded-strictly", FuncKey(nbk)+": transactions", p.Pos(nbk.Pos()), "NewBlock builds every transaction with NewTransaction (strict decode of the transaction's own bytes)", len(CallsIn(nbk, "blockchain.NewTransaction")) >= 1, "")
+			}
+			c.Count("production callers of the generated Block decoder", nb)
 		}
 	}
 
